@@ -484,6 +484,37 @@ for _v in VARIANTS:
     if _v.name == "fromdict-cost-or-default":
         pass
 
+
+RMQF = "utils/range_min_query.py"
+SUBS = "utils/subsequences.py"
+VARIANTS += [
+    M("lca-anc-swapped", TREES, "        return self(first, second) == first\n\n    def is_strict_ancestor_of", "        return self(first, second) == second\n\n    def is_strict_ancestor_of", "DERIVED-QUERIES"),
+    M("lca-strict-not-strict", TREES, "return self(first, second) == first and first != second", "return self(first, second) == first", "DERIVED-QUERIES"),
+    M("lca-distance-one-lca", TREES, "self.level(first) + self.level(second) - 2 * self.level(self(first, second))", "self.level(first) + self.level(second) - self.level(self(first, second))", "DERIVED-QUERIES"),
+    M("lca-comparable-one-way", TREES, "        return self.is_ancestor_of(\n            first, second\n        ) or self.is_ancestor_of(  # pylint:disable=arguments-out-of-order\n            second, first\n        )",
+      "        return self.is_ancestor_of(first, second)", "DERIVED-QUERIES"),
+    T("twin-lca-distance-via-lca-var", TREES, "        return (\n            self.level(first) + self.level(second) - 2 * self.level(self(first, second))\n        )",
+      "        top = self(first, second)\n        return (self.level(first) - self.level(top)) + (self.level(second) - self.level(top))"),
+    T("twin-lca-anc-flipped-eq", TREES, "        return self(first, second) == first\n\n    def is_strict_ancestor_of", "        return first == self(second, first)\n\n    def is_strict_ancestor_of"),
+    M("lca-last-occurrence", TREES, "            if node not in self.traversal_index:\n                self.traversal_index[node] = i", "            self.traversal_index[node] = i", "EULER-INDEX"),
+    M("lca-closed-range", TREES, "result = self.range_min_query(start, end + 1)", "result = self.range_min_query(start, end)", "EULER-INDEX"),
+    M("euler-no-revisit", TREES, "        tour.extend(_euler_tour(child, level + 1))\n        tour.append((level, root))\n", "        tour.extend(_euler_tour(child, level + 1))\n", "EULER-INDEX"),
+    M("euler-same-level", TREES, "tour.extend(_euler_tour(child, level + 1))", "tour.extend(_euler_tour(child, level))", "EULER-INDEX"),
+    M("rmq-second-window", RMQF, "self.sparse_table[depth][stop - 2**depth],", "self.sparse_table[depth][stop - 2**depth + 1],", "RMQ-WINDOWS"),
+    M("rmq-half-step", RMQF, "right = self.sparse_table[depth - 1][i + 2 ** (depth - 1)]", "right = self.sparse_table[depth - 1][i + 2**depth]", "RMQ-WINDOWS"),
+    M("rmq-starts-short", RMQF, "for i in range(length - 2**depth + 1):", "for i in range(length - 2**depth):", "RMQ-WINDOWS"),
+    M("rmq-empty-test", RMQF, "        if start >= stop:\n            return None", "        if start > stop:\n            return None", "RMQ-WINDOWS"),
+    T("twin-rmq-shift", RMQF, "self.sparse_table[depth][stop - 2**depth],", "self.sparse_table[depth][stop - (1 << depth)],"),
+    M("mask-msb-first", SUBS, "            mask |= 1 << parent_i\n", "            mask |= 1 << (len(parent) - 1 - parent_i)\n", "BIT-ORDER"),
+    M("mask-reader-index-on-set-bits", SUBS, "        child >>= 1\n        parent_i += 1\n\n    return result", "            parent_i += 1\n\n        child >>= 1\n\n    return result", "BIT-ORDER"),
+    M("mask-complete-short", SUBS, "return (1 << len(sequence)) - 1", "return (1 << (len(sequence) - 1)) - 1", "BIT-ORDER"),
+    M("segdist-recount-open-run", SUBS, "                if not in_segm:\n                    dist += 1\n                    in_segm = True", "                dist += 1\n                in_segm = True", "SEGMENT-MACHINE"),
+    M("segdist-no-close", SUBS, "            elif in_segm:\n                in_segm = False\n", "", "SEGMENT-MACHINE"),
+    M("segdist-final-always", SUBS, "    if in_segm and not edges:\n        dist -= 1", "    if in_segm:\n        dist -= 1", "SEGMENT-MACHINE"),
+    M("segdist-init-flipped", SUBS, "    in_segm = not edges\n", "    in_segm = edges\n", "SEGMENT-MACHINE"),
+    M("segdist-foreign-bit-ignored", SUBS, "        if bit_child and not bit_parent:\n            return -1\n", "", "SEGMENT-MACHINE"),
+    T("twin-segdist-nested-if", SUBS, "            elif in_segm:\n                in_segm = False\n", "            else:\n                in_segm = False\n"),
+]
 # the CLI twin needs a second edit (label in reconcile)
 for _v in VARIANTS:
     if _v.name == "twin-cli-label-in-reconcile":
